@@ -212,6 +212,9 @@ def run(pid, tier):
                                  stdout_tail=out[-600:], text=text))
             else:
                 R.validated()
+    if pid == "C07":
+        import c07garb
+        c07garb.run_into(R, tier)
     R.assumptions += ["the conforming grammar is my reading of the Norm (DESIGN 4.1); slots are spelled by harness/concretise.py",
                       "simulation part is seeded by VERIF_SEED"]
     return R.finish()
